@@ -12,7 +12,7 @@ repaired in /repo it retries every 100 ms while an exclusive command holds the s
 
 * the signal is never dropped: dispatched at once when the slot is free, otherwise one 100 ms
   timer whose firing runs `sigQuit` again;
-* an accepted quit sets `stopping`, which then holds for ever: no respawn during/after shutdown;
+* an accepted quit sets `stopping`; only the failure path of an arbiter restart clears it (fix 273f512); no respawn during/after shutdown;
 * `Arbiter.stop` targets every registered watcher (a permutation of all of them, each started);
 * when the stop future completes the loop is stopped and `stepTail` closes the control and the
   PUB socket; closed stays closed; nothing is published / replied on a closed socket;
@@ -115,6 +115,19 @@ example : (initState [{ name := "a" }] [{}] 0).a.restarting = true → (initStat
    `_restarting = False`) when the stop of the watchers fails — also when `_stopping` had been set earlier by a `quit`
    whose own stop had failed (`util.synchronized` accepts a `restart` while `_stopping` is set and the slot is free).
    What is proved: -/
+/-- a watcher whose worker the daemon may not signal, started -/
+def c08fS : State := run (initState [{ name := "alpha" }] [{ eperm := true }] 0) [.start, .wake, .wake]
+def c08fReq (cmd : String) : Op := .req "c" (some (.obj [("command", .str cmd), ("id", .str "q"), ("properties", .obj [])]))
+
+/-- **counter-example to "`stopping` is for ever" (consequence of fix 273f512, by evaluation)**: a `quit` that fails (the
+    worker cannot be signalled) leaves `_stopping` set with the slot free; a `restart` of the arbiter is then accepted,
+    fails for the same reason, and its `except` clears `_stopping`: the flag set by the quit is gone. -/
+theorem C08_counterexample_stopping_cleared_by_failed_restart :
+    (run c08fS [c08fReq "quit"]).a.stopping = true ∧ (run c08fS [c08fReq "quit"]).a.slot = none ∧
+    (run c08fS [c08fReq "quit", c08fReq "restart"]).a.stopping = false ∧
+    (run c08fS [c08fReq "quit", c08fReq "restart"]).a.restarting = false := by
+  decide +kernel
+
 /-- **`stopping` is cleared by one statement only** (partial: the run-level statement "once set by a quit it stays
     set unless an arbiter restart fails afterwards" needs the invariant that a `restartInsideAfterStop` frame exists
     only while the slot is held by `arbiter_restart`, which is not proved): the only definition of the model that
